@@ -160,6 +160,6 @@ class PreconditionsParser:
 
             else:
                 self.logger.error(f"Unknown precondition node: {precondition_node}")
-                return None
+                raise SyntaxError(f"Unknown precondition node: {precondition_node}")
 
         return precondition_root
